@@ -36,6 +36,9 @@ const (
 
 var c25PxStart = time.Now()
 
+// c25PxStall: a child that does not start a new work unit for this long is considered hung.
+const c25PxStall = 5 * time.Minute
+
 // c25PxCollect, if set, lets a child hand extra key/values to the parent.
 var c25PxCollect func() map[string]string
 
@@ -372,7 +375,41 @@ func c25PxSpawn(c *vx.Check, h *vx.Harness, job c25PxJob, kv map[string]string) 
 			}
 			defer lf.Close()
 			cmd.Stdout, cmd.Stderr = lf, lf
-			errs[i] = cmd.Run()
+			if err := cmd.Start(); err != nil {
+				errs[i] = err
+				return
+			}
+			done := make(chan error, 1)
+			go func() { done <- cmd.Wait() }()
+			// Liveness guard: a child that has not started a new unit for a long time (an endless
+			// probe loop in a hash table, a blocked stream …) is asked for its goroutine dump and
+			// killed; the parent reports the unit it was working on.
+			prog := filepath.Join(dir, "progress-"+strconv.Itoa(i))
+			tick := time.NewTicker(5 * time.Second)
+			defer tick.Stop()
+			started := time.Now()
+			for {
+				select {
+				case errs[i] = <-done:
+					return
+				case <-tick.C:
+					last := started
+					if fi, err := os.Stat(prog); err == nil {
+						last = fi.ModTime()
+					}
+					if time.Since(last) > c25PxStall {
+						cmd.Process.Signal(syscall.SIGQUIT)
+						select {
+						case <-done:
+						case <-time.After(10 * time.Second):
+							cmd.Process.Kill()
+							<-done
+						}
+						errs[i] = fmt.Errorf("stalled: no new unit started for %v", c25PxStall)
+						return
+					}
+				}
+			}
 		}(i)
 	}
 	wg.Wait()
@@ -398,6 +435,10 @@ func c25PxSpawn(c *vx.Check, h *vx.Harness, job c25PxJob, kv map[string]string) 
 			}
 			first := "?"
 			for _, l := range strings.Split(string(lg), "\n") {
+				if strings.HasPrefix(l, "SIGQUIT") {
+					first = "stalled"
+					break
+				}
 				if strings.HasPrefix(l, "fatal error:") || strings.HasPrefix(l, "panic:") || strings.HasPrefix(l, "unexpected fault") || strings.Contains(l, "SIGSEGV") || strings.Contains(l, "SIGBUS") {
 					first = l
 					break
